@@ -15,6 +15,7 @@ from pb_bss.distribution.mixture_model_utils import (
 )
 from pb_bss.distribution.utils import _ProbabilisticModel
 from pb_bss.permutation_alignment import _PermutationAlignment
+from pb_bss import _verif
 
 __all__ = [
     'CACGMM',
@@ -279,6 +280,11 @@ class CACGMMTrainer:
                 eigenvalue_floor=eigenvalue_floor,
                 weight_constant_axis=weight_constant_axis,
             )
+            if _verif.ENABLED:
+                _verif.report(
+                    trainer=self, iteration=iteration, model=model,
+                    affiliation=affiliation, quadratic_form=quadratic_form,
+                )
 
         return model
 
